@@ -399,6 +399,13 @@ func (t *State) PlayForMiner(blockid []byte) (err error) {
 			"latestBlockid", fmt.Sprintf("%x", t.latestBlockid))
 		return ErrPreBlockMissMatch
 	}
+	verifhook.BeforeLock("utxo.lock", func() bool {
+		if t.utxo.Mutex.TryLock() {
+			t.utxo.Mutex.Unlock()
+			return true
+		}
+		return false
+	})
 	t.utxo.Mutex.Lock()
 	defer t.utxo.Mutex.Unlock() // lock guard
 	defer func() {
@@ -456,6 +463,13 @@ func (t *State) PlayAndRepost(blockid []byte, needRepost bool, isRootTx bool) (e
 	if blockErr != nil {
 		return blockErr
 	}
+	verifhook.BeforeLock("utxo.lock", func() bool {
+		if t.utxo.Mutex.TryLock() {
+			t.utxo.Mutex.Unlock()
+			return true
+		}
+		return false
+	})
 	t.utxo.Mutex.Lock()
 	defer t.utxo.Mutex.Unlock()
 	defer func() {
@@ -644,6 +658,13 @@ func (t *State) Walk(blockid []byte, ledgerPrune bool) error {
 	xTimer := timer.NewXTimer()
 
 	// 获取全局锁
+	verifhook.BeforeLock("utxo.lock", func() bool {
+		if t.utxo.Mutex.TryLock() {
+			t.utxo.Mutex.Unlock()
+			return true
+		}
+		return false
+	})
 	t.utxo.Mutex.Lock()
 	defer t.utxo.Mutex.Unlock()
 	xTimer.Mark("walk_get_lock")
@@ -733,6 +754,13 @@ func (t *State) doTxSync(tx *pb.Transaction) error {
 		return pbErr
 	}
 	recvTime := time.Now().Unix()
+	verifhook.BeforeLock("utxo.rlock", func() bool {
+		if t.utxo.Mutex.TryRLock() {
+			t.utxo.Mutex.RUnlock()
+			return true
+		}
+		return false
+	})
 	t.utxo.Mutex.RLock()
 	defer t.utxo.Mutex.RUnlock() //lock guard
 	spLockKeys := t.utxo.SpLock.ExtractLockKeys(tx)
@@ -751,6 +779,7 @@ func (t *State) doTxSync(tx *pb.Transaction) error {
 		t.log.Debug("this tx already in unconfirm table, when DoTx", "txid", utils.F(tx.Txid))
 		return ErrAlreadyInUnconfirmed
 	}
+	verifhook.Yield("dotx.locked")
 	batch := t.ldb.NewBatch()
 	cacheFiller := &utxo.CacheFiller{}
 	doErr := t.doTxInternal(tx, batch, cacheFiller)
@@ -760,12 +789,14 @@ func (t *State) doTxSync(tx *pb.Transaction) error {
 	}
 	batch.Put(append([]byte(pb.UnconfirmedTablePrefix), tx.Txid...), pbTxBuf)
 	t.log.Debug("print tx size when DoTx", "tx_size", batch.ValueSize(), "txid", utils.F(tx.Txid))
+	verifhook.Yield("dotx.beforeWrite")
 	writeErr := batch.Write()
 	if writeErr != nil {
 		t.ClearCache()
 		t.log.Warn("fail to save to ldb", "writeErr", writeErr)
 		return writeErr
 	}
+	verifhook.Yield("dotx.beforePublish")
 	t.tx.UnconfirmTxInMem.Store(string(tx.Txid), tx)
 	cacheFiller.Commit()
 	return nil
